@@ -223,6 +223,29 @@ func loadFindings() []Finding {
 	return f.Findings
 }
 
+// keys of a finding's match that describe the crash site (as opposed to the
+// way the failure showed)
+var siteKeys = map[string]bool{"site": true, "pos": true, "cut": true, "torn": true, "last_rec": true, "next_rec": true, "trigger": true, "subset": true, "hdr_changed": true}
+
+func matchVal(want interface{}, got string) bool {
+	switch t := want.(type) {
+	case string:
+		return got == t
+	case []interface{}:
+		for _, x := range t {
+			if s, _ := x.(string); s == got {
+				return true
+			}
+		}
+	}
+	return false
+}
+
+// matchFinding: a violation belongs to an open finding if all keys of the
+// finding's match agree with the violation's own features, or if the world it
+// happened in descends from a crash image whose site description agrees with
+// the site keys of the match (the defect was triggered there and the world is
+// damaged from then on).
 func matchFinding(fs []Finding, v *core.Violation) *Finding {
 	for i := range fs {
 		f := &fs[i]
@@ -235,27 +258,27 @@ func matchFinding(fs []Finding, v *core.Violation) *Finding {
 			if k == "oracle" {
 				got = v.Oracle
 			}
-			switch t := want.(type) {
-			case string:
-				if got != t {
-					ok = false
-				}
-			case []interface{}:
-				found := false
-				for _, x := range t {
-					if s, _ := x.(string); s == got {
-						found = true
-					}
-				}
-				if !found {
-					ok = false
-				}
-			default:
+			if !matchVal(want, got) {
 				ok = false
 			}
 		}
 		if ok {
 			return f
+		}
+		for _, anc := range v.Chain {
+			ok, n := true, 0
+			for k, want := range f.Match {
+				if !siteKeys[k] {
+					continue
+				}
+				n++
+				if !matchVal(want, anc[k]) {
+					ok = false
+				}
+			}
+			if ok && n > 0 {
+				return f
+			}
 		}
 	}
 	return nil
